@@ -64,17 +64,20 @@ impl SchemaConverter {
             emitter.blank_line();
         }
 
-        let mut root_type_name = "schema.root".to_string();
-        // Emit the root schema as a class
-        if let Some(title) = walker.root_title() {
-            root_type_name = format!("{}{}", self.type_prefix, title);
-            let root = walker.root_schema();
-            if root.get("properties").is_some() {
-                let prefixed = format!("{}{}", self.type_prefix, title);
-                self.emit_object_class(&walker, &mut emitter, &prefixed, root);
-                emitter.blank_line();
-            }
+        // Emit the root schema itself, so that the reported root type is always declared:
+        // a class when it has properties, otherwise whatever kind of definition it is.
+        let root_type_name = format!(
+            "{}{}",
+            self.type_prefix,
+            walker.root_title().unwrap_or("root")
+        );
+        let root = walker.root_schema();
+        if root.get("properties").is_some() {
+            self.emit_object_class(&walker, &mut emitter, &root_type_name, root);
+        } else {
+            self.emit_definition(&walker, &mut emitter, &root_type_name, root);
         }
+        emitter.blank_line();
 
         ConvertResult {
             annotation_text: emitter.finish(),
